@@ -111,7 +111,7 @@ CLAIMED = {
     "C16": dict(
         engine="E2-logged-real-spawns",
         technique="Coq proof (induction over call sequences of a functional model of the builder, one function per method, panic = None; environment edits proved to refine map edits via last_binding; two-handle state machine for clone) + generated builder programs run on the real Exec under catch_unwind with the logged execve/chdir arguments, child descriptor kinds, Popen fields, delivered input and captured output compared with the extracted model (cross-checked by vm_compute)",
-        text="Theorems C16_*: for every call sequence over arbitrary byte strings: arguments are the added ones in call order after the command; for every variable name the final environment list's binding is the fold of the calls as map edits over the inherited environment (set: last wins, remove: absent unless set again, clear, extend), and that binding is what getenv sees in the child (C06); no environment call => inherit; Exec::shell(s) launches [sh, -c, s] for every s; stdout/stderr/stdin panic exactly when the stream already has a setting (Pipe over Pipe excepted; stdin Merge always), otherwise take the fresh setting; settings and input data survive every later call; input data makes popen/join/stream_* refuse loudly and is delivered on a pipe by capture/communicate; the two handles of a clone are independent and the clone equals the original at the moment of cloning.",
+        text="Theorems C16_*: for every call sequence over arbitrary byte strings: arguments are the added ones in call order after the command; for every variable name the final environment list's binding is the fold of the calls as map edits over the inherited environment (set: last wins, remove: absent unless set again, clear, extend), and that binding is what getenv sees in the child (C06); no environment call => inherit; Exec::shell(s) launches [sh, -c, s] for every s; stdout/stderr/stdin panic exactly when the stream already has a setting (Pipe over Pipe excepted; stdin Merge always), otherwise take the fresh setting; settings and input data survive every later call; input data makes popen/join/stream_* refuse loudly and is delivered on a pipe by capture/communicate; the two handles of a clone are independent and the clone equals the original at the moment of cloning; the last cwd() wins and without one the directory is untouched, detached is set exactly by a detached() call, and every terminator launches with the description's argv, directory and environment (communicate() alone forces detached).",
         note="Trusted: as C06; Lib/Builder.v is hand-written.  Found while tying the model: capture()/communicate() on a piped stdin without input data start the process and then panic ('must provide input to redirected stdin'); this is loud, not silent, and is modelled (l_panics_after), not reported as a finding.  The snapshot of the inherited environment is taken at the first environment call; the model uses one base for the whole program.",
         design="5/C16"),
     "C17": dict(
